@@ -64,6 +64,7 @@ pub fn run_scenario(scen: &Scenario) -> Report {
     let keep_trace = scen.checks.rules || scen.checks.intact || dry || kind0 == "openrace";
     let yield_on_events = scen.extra.get("yield_on_events").and_then(|x| x.as_bool()).unwrap_or(true);
     let disk = Arc::new(SimDisk::new(scratch.clone(), scen.faults.clone(), scen.knobs.clone(), keep_trace, yield_on_events));
+    if let Some(rate) = scen.extra.get("buggify_io").and_then(|x| x.as_u64()) { if scen.faults.is_empty() && scen.extra.get("plan").is_none() { disk.set_buggify(rate, crate::rng::mix(scen.run_seed ^ 0xB0661F1)); } }
     simrt::hooks::install(disk.clone());
     let rep: Arc<Mutex<Report>> = Arc::new(Mutex::new(Report::default()));
     PANICS.lock().unwrap_or_else(|e| e.into_inner()).clear();
